@@ -243,8 +243,10 @@ def render_mem(base, index, scale, order, disp, hexdisp=True):
     s = "+".join(parts)
     if disp is not None:
         mag = abs(disp)
-        d = ("0x%x" % mag) if hexdisp else ("%d" % mag)
-        if s:
+        d = ("0%d" % mag) if hexdisp == "dec0" else (("0x%x" % mag) if hexdisp else ("%d" % mag))
+        if hexdisp == "wrap" and disp < 0 and s:
+            s += "+0x%x" % (2 ** 64 + disp)  # a negative displacement written as its 64-bit two's complement
+        elif s:
             s += ("-" if disp < 0 else "+") + d
         else:
             s = ("-" if disp < 0 else "") + d
@@ -298,7 +300,12 @@ def shapes(tier_full, rnd, per_combo_disps=2):
                 for disp in ds:
                     if not shape_ok(base, index, scale, order, disp):
                         continue
-                    for hexdisp in ((True, False) if (tier_full and disp is not None) else (rnd.random() < 0.7,)):
+                    wrap_ok = disp is not None and disp < 0 and fam is R64 and (base or index)
+                    if tier_full and disp is not None:
+                        hs = (True, False, "dec0", "wrap") if wrap_ok else (True, False, "dec0")
+                    else:
+                        hs = ("wrap",) if (wrap_ok and rnd.random() < 0.25) else (rnd.choice((True, True, True, False, "dec0")),)
+                    for hexdisp in hs:
                         yield base, index, scale, order, disp, hexdisp
     for disp in (0, 1, 4, 0x7f, 0x80, 0xff, 0x100, 0x1234, 0x7fffffff):
         yield None, None, None, "is", disp, True
@@ -469,6 +476,12 @@ def spellings(v, rnd=None, all_=False):
         out.append(("hex0", sg + "0x" + "0" * (1 + (len(hexd) % 3)) + hexd))
     if len(hexd) <= 16:
         out.append(("hex16", sg + "0x" + hexd.rjust(16, "0")))
+    if len(hexd) < 15:
+        out.append(("hex15", sg + "0x" + hexd.rjust(15, "0")))  # one digit short of "all 16 digits"
+    decd = "%d" % mag
+    for width in (len(decd) + 1, 16, 18, 20, 24):  # decimals with leading zeros are decimals (nasm agrees), whatever their length
+        if width > len(decd):
+            out.append(("dec0", sg + decd.rjust(width, "0")))
     if all_ or rnd is None:
         return out
     return [out[0], out[1]] + ([rnd.choice(out[2:])] if len(out) > 2 else [])
@@ -657,19 +670,32 @@ def gen_branch_indirect():
     return out
 
 
-def gen_far(rnd):
-    """far jmp/call through memory with word/dword/qword (and no) size keyword."""
+def gen_far(rnd, full=False):
+    """far jmp/call through memory with word/dword/qword (and no) size keyword, over base x index x scale x displacement shapes."""
     out = []
+    combos = []
+    for base in ("rax", "rbp", "r12", "r13", "rsp", "ebx", "r9"):
+        combos.append((base, None, None, "is"))
+    for base in ("rax", "rbx", "r8", "r13", "rsp", "rbp", None):
+        for index in ("rcx", "r9", "r12", "r15", "rbp"):
+            for scale, order in ((None, "is"), (1, "is"), (2, "is"), (4, "si"), (8, "is")):
+                combos.append((base, index, scale, order))
+    for base, index in (("ebx", "ecx"), ("r8d", "r9d"), ("eax", "r15d"), (None, "r10d")):
+        for scale, order in ((None, "is"), (2, "si"), (8, "is")):
+            combos.append((base, index, scale, order))
     for mn in ("jmp", "call"):
-        for base in ("rax", "rbp", "r12", "r13", "rsp", "ebx", "r9"):
-            for disp in (None, 0x7f, 0x80, -0x80):
+        for (base, index, scale, order) in combos:
+            disps = (None, 0x7f, 0x80, -0x80) if (full or index is None) else (rnd.choice((None, 0x10, -0x80)), rnd.choice((0x80, 0x7fffffff, -0x81)))
+            for disp in disps:
+                if not shape_ok(base, index, scale, order, disp):
+                    continue
                 for kw, nkw in ((None, "qword"), ("word", "word"), ("dword", "dword"), ("qword", "qword")):
-                    M = render_mem(base, None, None, "is", disp)
+                    M = render_mem(base, index, scale, order, disp)
                     text = "%s far %s%s" % (mn, (kw + " ") if kw else "", M)
                     nasm = "%s far %s %s" % (mn, nkw, M)
-                    c = mk("branch_far", mn, "far_m", text, [], 64, nasm=nasm, base=base, disp=disp, kw=kw)
-                    asz = REGW[base]
-                    c["exp"] = (mn + "f", ("m", None, asz, ((base, 1),), disp or 0), ("i", {"word": 16, "dword": 32, "qword": 64}[nkw]))
+                    c = mk("branch_far", mn, "far_m", text, [], 64, nasm=nasm, base=base, index=index, scale=scale, disp=disp, kw=kw)
+                    m = mem_exp(None, base, index, scale, disp)
+                    c["exp"] = (mn + "f", m, ("i", {"word": 16, "dword": 32, "qword": 64}[nkw]))
                     c["far_size"] = nkw
                     out.append(c)
     return out
